@@ -160,6 +160,25 @@ type c39Gen struct {
 	nextF  int
 	nextT  int
 	direct bool // allow `continue` directly in the block it names (known finding 1)
+	outer  []string // block names of the callers (across function boundaries), innermost first
+}
+
+// a block name of a caller that no block of the current function has
+func (g *c39Gen) foreignName(encl []string) (string, bool) {
+	cand := []string{}
+	for _, nm := range g.outer {
+		found := false
+		for _, e := range encl {
+			found = found || e == nm
+		}
+		if !found {
+			cand = append(cand, nm)
+		}
+	}
+	if len(cand) == 0 {
+		return "", false
+	}
+	return cand[g.r.Intn(len(cand))], true
 }
 
 type c39Loop struct{ id, n int }
@@ -197,6 +216,13 @@ func (g *c39Gen) cond(loops []c39Loop) c39Node {
 }
 
 func (g *c39Gen) jump(encl []string) c39Node {
+	// inside a called function: name a block that only a caller has (the function boundary)
+	if nm, ok := g.foreignName(encl); ok && g.r.Intn(3) == 0 {
+		if len(encl) >= 2 && g.r.Intn(3) == 0 {
+			return c39Node{K: "continue", Name: nm}
+		}
+		return c39Node{K: "break", Name: nm}
+	}
 	switch k := g.r.Intn(10); {
 	case k < 4:
 		return c39Node{K: "break", Name: encl[g.r.Intn(len(encl))]}
@@ -269,7 +295,10 @@ func (g *c39Gen) stmt(depth int, encl []string, loops []c39Loop) c39Node {
 	case k < 85:
 		g.nextF++
 		f := g.nextF
+		saved := g.outer
+		g.outer = append(append([]string{}, encl...), g.outer...)
 		body := g.block(depth-1, []string{fmt.Sprintf("f%d", f)}, nil, 1)
+		g.outer = saved
 		body = append(body, c39Node{K: "out", T: g.tag()}) // a function body ends with `out`
 		return c39Node{K: "call", F: f, Body: body}
 	default:
@@ -285,6 +314,65 @@ func c39GenProgram(r *rand.Rand, depth int, direct bool) []c39Node {
 }
 
 func c39Out(t int) c39Node { return c39Node{K: "out", T: t} }
+
+// c39Boundary: a helper function (1-2 calls deep) says `break NAME` / `continue NAME` where NAME
+// is a block of its CALLER only; the caller's block must carry on.
+func c39Boundary(r *rand.Rand) []c39Node {
+	t := 0
+	out := func() c39Node { t++; return c39Out(t) }
+	kinds := []string{"foreach", "while", "if", "foreach", "while"}
+	kind := kinds[r.Intn(len(kinds))]
+	id := 0
+	loop := func(k string, body []c39Node) c39Node {
+		id++
+		switch k {
+		case "if":
+			return c39Node{K: "if", Cond: "true", Body: body}
+		default:
+			return c39Node{K: k, ID: id, N: 2 + r.Intn(2), Body: body}
+		}
+	}
+	// the jump, inside the helper
+	jump := c39Node{K: "break", Name: kind}
+	nested := r.Intn(3) // 0: directly in the function body, 1: in an if, 2: in a loop of another kind
+	if kind == "if" && nested == 1 {
+		nested = 2 // an `if` around the jump would be the block it names
+	}
+	if nested > 0 && r.Intn(3) == 0 {
+		jump.K = "continue"
+	}
+	var inner []c39Node
+	switch nested {
+	case 0:
+		inner = []c39Node{out(), jump, out()}
+	case 1:
+		inner = []c39Node{out(), {K: "if", Cond: "true", Body: []c39Node{jump, out()}}, out()}
+	default:
+		other := "while"
+		if kind == "while" {
+			other = "foreach"
+		}
+		l := loop(other, nil)
+		l.Body = []c39Node{out(), {K: "if", Cond: "eq", ID: l.ID, M: 2, Body: []c39Node{jump}}, out()}
+		inner = []c39Node{l, out()}
+	}
+	f := 1
+	call := c39Node{K: "call", F: f, Body: inner}
+	if r.Intn(2) == 0 { // two calls deep
+		f++
+		call = c39Node{K: "call", F: f, Body: []c39Node{out(), call, out()}}
+	}
+	callerBody := []c39Node{out(), call, out()}
+	if r.Intn(3) == 0 { // the call sits in an `if` inside the caller's block
+		callerBody = []c39Node{out(), {K: "if", Cond: "true", Body: []c39Node{call, out()}}, out()}
+	}
+	main := []c39Node{loop(kind, callerBody), out()}
+	if r.Intn(3) == 0 { // the caller is itself a function
+		f++
+		main = []c39Node{{K: "call", F: f, Body: append(main[:1:1], out())}, out()}
+	}
+	return main
+}
 
 var c39Corpus = []c39Case{
 	// the documentation's examples
@@ -303,6 +391,14 @@ var c39Corpus = []c39Case{
 		c39Out(1), {K: "while", ID: 2, N: 2, Body: []c39Node{c39Out(2)}}, c39Out(3)}}, c39Out(4)}},
 	// known finding 1: `continue` directly in the block it names does nothing
 	{Class: "corpus-direct", Main: []c39Node{{K: "foreach", ID: 1, N: 2, Body: []c39Node{c39Out(1), {K: "continue", Name: "foreach"}, c39Out(2)}}, c39Out(3)}},
+	// seeded mutation C39-1: a helper's `break foreach` / `break while` must not end the caller's loop
+	{Class: "corpus-boundary", Main: []c39Node{{K: "foreach", ID: 1, N: 3, Body: []c39Node{
+		{K: "call", F: 1, Body: []c39Node{c39Out(1), {K: "if", Cond: "true", Body: []c39Node{{K: "break", Name: "foreach"}}}, c39Out(2)}}, c39Out(3)}}, c39Out(4)}},
+	{Class: "corpus-boundary", Main: []c39Node{{K: "call", F: 2, Body: []c39Node{{K: "while", ID: 1, N: 3, Body: []c39Node{
+		{K: "call", F: 1, Body: []c39Node{{K: "foreach", ID: 2, N: 2, Body: []c39Node{c39Out(1), {K: "if", Cond: "eq", ID: 2, M: 2, Body: []c39Node{{K: "break", Name: "while"}}}, c39Out(2)}}, c39Out(3)}},
+		c39Out(4)}}, c39Out(5)}}, c39Out(6)}},
+	{Class: "corpus-boundary", Main: []c39Node{{K: "if", Cond: "true", Body: []c39Node{
+		{K: "call", F: 1, Body: []c39Node{c39Out(1), {K: "break", Name: "if"}, c39Out(2)}}, c39Out(3)}}, c39Out(4)}},
 	// break if / break out of nested loops / return at the top level
 	{Class: "corpus", Main: []c39Node{{K: "if", Cond: "true", Body: []c39Node{c39Out(1), {K: "break", Name: "if"}, c39Out(2)}}, c39Out(3)}},
 	{Class: "corpus", Main: []c39Node{{K: "foreach", ID: 1, N: 2, Body: []c39Node{{K: "while", ID: 2, N: 3, Body: []c39Node{
@@ -321,6 +417,13 @@ func (c39) Gen(seed int64, tier string, emit func(any)) {
 		n = 9000
 	}
 	r := rand.New(rand.NewSource(seed))
+	nb := 80
+	if tier == "thorough" {
+		nb = 600
+	}
+	for i := 0; i < nb; i++ {
+		emit(c39Case{Main: c39Boundary(r), Class: "boundary"})
+	}
 	for i := 0; i < n; i++ {
 		depth := 2 + r.Intn(3)
 		direct := r.Intn(40) == 0
